@@ -2195,6 +2195,8 @@ def _set(
             if isinstance(value, dict):
                 if _is_tensor_collection(target_cls):
                     cast_val = target_cls.from_dict(value, auto_batch_size=False)
+                    # the field may be held as None in the non-tensor store
+                    self._non_tensordict.pop(key, None)
                     self._tensordict.set(
                         key, cast_val, inplace=inplace, non_blocking=non_blocking
                     )
